@@ -14,6 +14,7 @@ import (
 	"github.com/cosmos/gogoproto/proto"
 
 	opchildtypes "github.com/initia-labs/OPinit/x/opchild/types"
+	ophosttypes "github.com/initia-labs/OPinit/x/ophost/types"
 
 	"verifmc/engine"
 	"verifmc/world"
@@ -203,7 +204,31 @@ func (y *c18L1Sys) Digest(s *c16L1State) [32]byte { return y.inner.Digest(s) }
 type c18Export struct{}
 
 func (y *c18L1Sys) Letters(s *c16L1State) []engine.Letter {
-	return append(y.inner.Letters(s), engine.Letter{Name: "ExportGenesis", Data: c18Export{}})
+	ls := append(y.inner.Letters(s), engine.Letter{Name: "ExportGenesis", Data: c18Export{}})
+	// messages that are wrong in two places at once: which of the two errors is reported must not depend
+	// on anything but the message
+	two := []c16L1Op{
+		{"CreateBridge(proposer and challenger both malformed)", func(s *c16L1State) sdk.Msg {
+			c := world.BridgeConfig("proposer", "challenger", 10*time.Second)
+			c.Proposer, c.Challenger = "not-a-proposer", "not-a-challenger"
+			return ophosttypes.NewMsgCreateBridge(world.Addr("creator").String(), c)
+		}},
+		{"CreateBridge(challenger malformed, period zero, submitter empty)", func(s *c16L1State) sdk.Msg {
+			c := world.BridgeConfig("proposer", "challenger", 0)
+			c.Challenger, c.BatchInfo.Submitter = "x", ""
+			return ophosttypes.NewMsgCreateBridge(world.Addr("creator").String(), c)
+		}},
+		{"Deposit(bridge 0, empty recipient)", func(s *c16L1State) sdk.Msg {
+			return ophosttypes.NewMsgInitiateTokenDeposit(world.Addr("alice").String(), 0, "", world.Coin("uxx", 1), nil)
+		}},
+		{"UpdateBatchInfo(unknown bridge, undeclared chain type, empty submitter)", func(s *c16L1State) sdk.Msg {
+			return ophosttypes.NewMsgUpdateBatchInfo(s.w.Authority, 99, ophosttypes.BatchInfo{Submitter: "", ChainType: 9})
+		}},
+	}
+	for _, op := range two {
+		ls = append(ls, engine.Letter{Name: op.name, Data: op})
+	}
+	return ls
 }
 func (y *c18L1Sys) Check(s *c16L1State) *engine.Violation { return nil }
 
